@@ -27,6 +27,7 @@ const gen15File uint64 = 0xf00dfeedf00dfeed
 const gen15T uint64 = 0xa1a1a1a1a1a1a101
 const gen15Aux uint64 = 0xa1a1a1a1a1a1a102
 const gen15Enum uint64 = 0xa1a1a1a1a1a1a103
+const gen15Iface uint64 = 0xa1a1a1a1a1a1a104
 
 type g15field struct {
 	kind   string
@@ -65,13 +66,13 @@ func g15Request(dw, ptrs, discOff int, fields []g15field) ([]byte, error) {
 
 // g15RequestIDs: the same schema with node ids shifted by idShift (the schema registry refuses duplicates)
 func g15RequestIDs(dw, ptrs, discOff int, fields []g15field, idShift uint64) ([]byte, error) {
-	gen15File, gen15T, gen15Aux, gen15Enum := gen15File+idShift*16, gen15T+idShift*16, gen15Aux+idShift*16, gen15Enum+idShift*16
+	gen15File, gen15T, gen15Aux, gen15Enum, gen15Iface := gen15File+idShift*16, gen15T+idShift*16, gen15Aux+idShift*16, gen15Enum+idShift*16, gen15Iface+idShift*16
 	msg, seg, err := capnp.NewMessage(capnp.SingleSegment(nil))
 	if err != nil {
 		return nil, err
 	}
 	req, _ := schema.NewRootCodeGeneratorRequest(seg)
-	nodes, _ := req.NewNodes(4)
+	nodes, _ := req.NewNodes(5)
 	const fileName = "demo.capnp"
 	file := nodes.At(0)
 	file.SetId(gen15File)
@@ -86,9 +87,9 @@ func g15RequestIDs(dw, ptrs, discOff int, fields []g15field, idShift uint64) ([]
 		v, _ := anns.At(i).NewValue()
 		v.SetText(a.val)
 	}
-	nested, _ := file.NewNestedNodes(3)
-	names := []string{"T", "Aux", "E"}
-	ids := []uint64{gen15T, gen15Aux, gen15Enum}
+	nested, _ := file.NewNestedNodes(4)
+	names := []string{"T", "Aux", "E", "I"}
+	ids := []uint64{gen15T, gen15Aux, gen15Enum, gen15Iface}
 	for i := range names {
 		nested.At(i).SetName(names[i])
 		nested.At(i).SetId(ids[i])
@@ -98,7 +99,8 @@ func g15RequestIDs(dw, ptrs, discOff int, fields []g15field, idShift uint64) ([]
 		n.SetDisplayNamePrefixLength(uint32(len(fileName) + 1))
 		n.SetScopeId(gen15File)
 	}
-	// Aux: an empty struct; E: an enum with two enumerants
+	// Aux: an empty struct; E: an enum with two enumerants; I: an interface without methods
+	nodes.At(4).SetInterface()
 	nodes.At(2).SetStructNode()
 	nodes.At(3).SetEnum()
 	en, _ := nodes.At(3).Enum().NewEnumerants(2)
@@ -177,10 +179,22 @@ func g15RequestIDs(dw, ptrs, discOff int, fields []g15field, idShift uint64) ([]
 			dv.SetEnum(uint16(f.mask))
 		case "text":
 			ty.SetText()
-			dv.SetText("")
+			if f.mask != 0 {
+				dv.SetText("d" + strconv.FormatUint(f.mask, 10))
+			} else {
+				dv.SetText("")
+			}
 		case "data":
 			ty.SetData()
-			dv.SetData(nil)
+			if f.mask != 0 {
+				dv.SetData([]byte("d" + strconv.FormatUint(f.mask, 10)))
+			} else {
+				dv.SetData(nil)
+			}
+		case "iface":
+			ty.SetInterface()
+			ty.Interface().SetTypeId(gen15Iface)
+			dv.SetInterface()
 		case "struct":
 			ty.SetStructType()
 			ty.StructType().SetTypeId(gen15Aux)
@@ -232,6 +246,8 @@ var (
 	reCall    = regexp.MustCompile(`(!?)s\.Struct\.(\w+)\((\d+)(?:, ([^\n]*))?\)`)
 	reXorGet  = regexp.MustCompile(`s\.Struct\.Uint\d+\(\d+\) \^ (0x[0-9a-fA-F]+|\d+)`)
 	reXorSet  = regexp.MustCompile(`\^\s*(0x[0-9a-fA-F]+|\d+)\)?$`)
+	reDefault = regexp.MustCompile(`p\.(Text|Data)Default\((.*)\)\)?, err`)
+	reHexByte = regexp.MustCompile(`0x[0-9a-f]+`)
 	reTypeID  = regexp.MustCompile(`const T_TypeID = (0x[0-9a-f]+)`)
 )
 
@@ -269,6 +285,21 @@ func g15Facts(src string, nfields int) string {
 				rest = strings.Replace(rest, m[0], "", 1)
 			}
 			for _, line := range strings.Split(rest, "\n") {
+				if strings.Contains(line, "v = []byte{}") {
+					facts = append(facts, "nilempty")
+				}
+				if m := reDefault.FindStringSubmatch(line); m != nil {
+					if m[1] == "Text" {
+						s, _ := strconv.Unquote(m[2])
+						facts = append(facts, "TextDefault="+s)
+					} else {
+						var bs []byte
+						for _, x := range reHexByte.FindAllString(m[2], -1) {
+							bs = append(bs, byte(parseLit(x)))
+						}
+						facts = append(facts, "DataDefault="+string(bs))
+					}
+				}
 				for _, c := range reCall.FindAllStringSubmatch(line, -1) {
 					neg, meth, a0, a1 := c[1], c[2], c[3], c[4]
 					switch {
@@ -310,7 +341,52 @@ func g15Facts(src string, nfields int) string {
 
 var gen15Count int
 
+// execTextSlot: "gen15 textslot <value hex|-> <default hex|-> <0|1>": SetText (0) or SetNewText (1) on a fresh struct, then
+// whether the slot is set and what TextDefault reads (the primitives the generated Text accessors are made of).
+func execTextSlot(f []string) string {
+	unhex := func(s string) ([]byte, bool) {
+		if s == "-" {
+			return nil, true
+		}
+		b, err := lib.UnHex(s)
+		return b, err == nil
+	}
+	v, ok1 := unhex(f[1])
+	d, ok2 := unhex(f[2])
+	if !ok1 || !ok2 {
+		return "bad-op"
+	}
+	_, seg, err := capnp.NewMessage(capnp.SingleSegment(nil))
+	if err != nil {
+		return "harness-error"
+	}
+	st, err := capnp.NewRootStruct(seg, capnp.ObjectSize{PointerCount: 1})
+	if err != nil {
+		return "harness-error"
+	}
+	if f[3] == "1" {
+		err = st.SetNewText(0, string(v))
+	} else {
+		err = st.SetText(0, string(v))
+	}
+	if err != nil {
+		return "set-error"
+	}
+	p, err := st.Ptr(0)
+	if err != nil {
+		return "get-error"
+	}
+	got := p.TextDefault(string(d))
+	if gb := p.TextBytesDefault(string(d)); string(gb) != got {
+		return "!text-and-bytes-differ"
+	}
+	return "has=" + strconv.FormatBool(st.HasPtr(0)) + " get=" + lib.Hex([]byte(got))
+}
+
 func execGen15(f []string) string {
+	if len(f) == 4 && f[0] == "textslot" {
+		return execTextSlot(f)
+	}
 	dw, ptrs, discOff, fields, ok := parseG15(f)
 	if !ok {
 		return "bad-op"
@@ -381,7 +457,7 @@ func genC15(rec *lib.Rec, r *lib.Rng, thorough bool) {
 	}
 	n /= Shards
 	widths := map[string]int{"u8": 1, "i8": 1, "u16": 2, "i16": 2, "enum": 2, "u32": 4, "i32": 4, "f32": 4, "u64": 8, "i64": 8, "f64": 8}
-	kinds := []string{"bool", "u8", "i8", "u16", "i16", "enum", "u32", "i32", "f32", "u64", "i64", "f64", "text", "data", "struct", "list", "any", "void"}
+	kinds := []string{"bool", "u8", "i8", "u16", "i16", "enum", "u32", "i32", "f32", "u64", "i64", "f64", "text", "data", "struct", "list", "any", "void", "iface", "text", "data"}
 	for i := 0; i < n; i++ {
 		dw := 1 + r.Intn(4)
 		if r.Intn(12) == 0 {
@@ -431,6 +507,9 @@ func genC15(rec *lib.Rec, r *lib.Rng, thorough bool) {
 					ptrs = 1
 				}
 				off = r.Intn(ptrs)
+				if (k == "text" || k == "data") && r.Intn(2) == 0 {
+					mask = uint64(1 + r.Intn(999)) // a non-empty schema default
+				}
 			}
 			disc := "-"
 			if useUnion && r.Intn(2) == 0 {
@@ -443,5 +522,19 @@ func genC15(rec *lib.Rec, r *lib.Rng, thorough bool) {
 			fs = append(fs, fmt.Sprintf("%s:%d:%d:%s", k, off, mask, disc))
 		}
 		rec.Op("S", fmt.Sprintf("gen15 %d %d %d %s", dw, ptrs, discOff, strings.Join(fs, ",")), true)
+		// the primitives the Text accessors are made of (`Model.Layout.structSetText` …): values without NUL bytes
+		for k := 0; k < 4; k++ {
+			hx := func(n int) string {
+				if n == 0 {
+					return "-"
+				}
+				b := make([]byte, n)
+				for q := range b {
+					b[q] = byte(1 + r.Intn(255))
+				}
+				return lib.Hex(b)
+			}
+			rec.Op("M", "gen15 textslot "+hx(r.Pick(0, 0, 1, 2, r.Intn(20)))+" "+hx(r.Pick(0, 0, 1, 3, r.Intn(12)))+" "+strconv.Itoa(r.Intn(2)), true)
+		}
 	}
 }
